@@ -1,81 +1,124 @@
 /-
   Model/SchedN.lean — the fiber scheduler of src/fiber_scheduler_wsd.c on N kernel threads,
-  with work stealing (property C10, multi-thread part).
+  with work stealing (property C10, multi-thread part).  Trace-validated: `SchedN.drive`
+  replays the run-queue events of every N-thread log of harness/yield.c through `step`.
 
   Every kernel thread `k : Nat` (unbounded) owns two deques `frm k` (= `schedule_from`) and
   `to k` (= `store_to`), lists whose HEAD is the BOTTOM (most recently pushed) and whose LAST
-  element is the TOP (oldest), and a current fiber `cur k`.  Per thread the events are those of
-  the one-thread model `Sched` (Model/Sched.lean, `Target.storeTo` — the fix is in):
+  element is the TOP (oldest), and a current fiber `cur k`.  Events, each one log line:
 
-    sched k f    thread k's running fiber creates / wakes `f`: push_bottom(store_to k, f)
-                 (fiber_scheduler_schedule, fiber_scheduler_wsd.c:89-95)
-    yield k      the running fiber of k calls fiber_yield            (fiber_manager.c:99)
-    switch k g   fiber_scheduler_next on k returned `g` (swap if schedule_from is empty, then
-                 pop_bottom(schedule_from), fiber_scheduler_wsd.c:97-116) and k switched to it;
-                 a yielder is re-queued by its successor onto `store_to k`
-                 (fiber_manager.c:87-90 + 327-331); a finished / blocked fiber is not
-    resumed k    fiber_yield returned in the same fiber: nothing to run (fiber_manager.c:123-128)
-    finish k     the running fiber finishes or blocks: it leaves the run queues' world and k
-                 dispatches without re-queueing it.  A thread with no fiber (`cur k = none`,
-                 phase `ending`) is in its maintenance loop (fiber_manager.c:163-179); the
-                 maintenance fiber itself is not a model fiber (it parks itself as
-                 SAVING_STATE_TO_WAIT, fiber_manager.c:170, and is never queued).
+    sched k f      thread k's running fiber creates / wakes `f`: push_bottom(store_to k, f)
+                   (fiber_scheduler_schedule, fiber_scheduler_wsd.c:87-93)
+                   log: `rqpush` in fiber_scheduler_schedule that is not the re-queue below
+    yield k        the running fiber of k enters fiber_manager_yield   (fiber_manager.c:99-106)
+                   log: `fiber_manager_yield r F<cur>.state 1`
+    finish k sv    the running fiber leaves the run queues' world: it is done or parks.
+                   `sv` = it parks through an MPSC waiter queue, state SAVING_STATE_TO_WAIT
+                   (fiber_manager.c:406): it can be woken (`sched`) and reach a run queue while
+                   its context is still being saved
+                   log: `w F<cur>.state 3|4|5` by the fiber itself (`sv` iff 5)
+    saved k f      the successor on the thread `f` parked on has completed the context switch
+                   and marks it WAITING (fiber_manager_do_maintenance, fiber_manager.c:318-320)
+                   log: `fiber_manager_do_maintenance w F<f>.state 3`
+    pop k g        fiber_scheduler_next on k (wsd.c:95-116): swap the deques if `schedule_from`
+                   is empty, pop_bottom(schedule_from) returned `g`.  The lists change with the
+                   decision that follows (`skip` / `switch`), `hand k` remembers `g`
+                   log: `rqpop <queue> @F<g>`
+    skip k g       `g` was found in state SAVING_STATE_TO_WAIT (wsd.c:108-109): it goes to the
+                   bottom of `store_to k` and fiber_scheduler_next goes on
+                   log: `fiber_scheduler_next r F<g>.state 5`
+    switch k g     fiber_scheduler_next returned `g` and k switched to it; a yielder is re-queued
+                   by its successor onto `store_to k` (fiber_manager.c:87-90 + 327-331); a
+                   finished / parked fiber is not
+                   log: `switch <g>` (upstream's __tsan_switch_to_fiber hook, just before the
+                   stack switch)
+    pushed k w g   the push_bottom that `skip` (store_to), the re-queue of `switch` (store_to) or
+                   `steal` (schedule_from) announced is performed: `w` = the deque it really
+                   went to.  `pend k` holds the announcement; thread k does nothing else before
+                   log: the `rqpush` of fiber_scheduler_next / of fiber_manager_do_maintenance's
+                   fiber_scheduler_schedule / of fiber_scheduler_load_balance
+    resumed k      fiber_manager_yield returns in the same fiber: fiber_scheduler_next returned
+                   NULL, so `schedule_from k` is empty (`store_to k` may hold fibers that were
+                   just skipped), possibly after the occasional load_balance
+                   (fiber_manager.c:123-128)
+                   log: the next event of the running fiber (harness note `resumed`, a further
+                   yield, a wake-up, the end of the fiber)
+    idle k         fiber_scheduler_next returned NULL to a finished / parked fiber: k switches to
+                   its maintenance loop (fiber_manager.c:112-120, 163-179).  The maintenance
+                   fiber itself is not a model fiber (it parks itself as SAVING_STATE_TO_WAIT,
+                   fiber_manager.c:170, and is never queued); a thread in the loop has
+                   `cur k = none`, phase `ending`
+                   log: `switch <c>` with nothing popped (`hand k = none`)
+    steal k j w f  thread k, inside a fiber_scheduler_load_balance call (wsd.c:118-149), takes
+                   the TOP (`wsd_..._steal`, line 136-137: the LAST element of the list) of
+                   thread j's deque `w` (`frm j` or `to j` — the loop at 125-128 visits both
+                   deques of every other thread) and pushes it onto the BOTTOM of its OWN
+                   `schedule_from` (line 142; the push itself is the following `pushed`)
+                   log: `rqsteal <queue of j> @F<f>`
 
-  PLUS stealing, as fiber_scheduler_load_balance (fiber_scheduler_wsd.c:118-151) does it:
-
-    steal k j w f   thread k, inside a load_balance call, takes the TOP (`wsd_..._steal`,
-                    line 136-137: the LAST element of the list) of thread j's deque `w`
-                    (`frm j` or `to j` — the loop at 124-127 visits both deques of every other
-                    thread) and pushes it onto the BOTTOM of its OWN `schedule_from`
-                    (line 142: `push_bottom(scheduler->schedule_from, stolen)`).
-
-  Facts about load_balance the model relies on (all others are over-approximated):
+  Facts about load_balance, all checked on every replayed log:
     L1  steal takes the top of the victim deque                      (wsd.c:136-137)
     L2  the loot goes to the bottom of the thief's `schedule_from`    (wsd.c:142)
     L3  at most `max_steal = 50` steals per call                      (wsd.c:120, 135, 145)
     L4  load_balance is called only by a thread that is in scheduler code (not running user
-        code), and only when BOTH of its deques are empty:
+        code) and whose `schedule_from` is EMPTY:
           - fiber_manager_yield calls it only in the branch where fiber_scheduler_next
             returned NULL (fiber_manager.c:108-128), every 1024th time (line 125);
           - the maintenance loop (fiber_manager.c:163-164) is entered at thread start and
-            re-entered only through fiber_manager.c:119, i.e. again after next() = NULL;
-            the only thing that can fill a deque of an idle thread before line 164 is a
-            wake-up by the event poller (lines 173-176), i.e. a `sched` — the fairness theorems
-            are stated for `sched`-free stretches (as in the one-thread case), and `sched` is
-            modelled for running fibers only.
+            re-entered only through fiber_manager.c:119, i.e. again after next() = NULL, and
+            nothing but load_balance itself pushes onto `schedule_from`.
+        `store_to` need NOT be empty: fiber_scheduler_next returns NULL as soon as
+        `schedule_from` is exhausted, and every fiber it skipped (SAVING_STATE_TO_WAIT) sits in
+        `store_to` then.  (An earlier version of this model required both deques to be empty;
+        the real scheduler does call load_balance with skipped fibers in `store_to`, e.g.
+        `rqpop @Q1b @F16 / r F16.state 5 / rqpush @Q1a @F16 / switch 1 / rqsteal @Q0b @F19`.)
         Hence everything in `frm k` during a call was stolen in that call.  The ghost counter
         `lb k` (number of steals in the current call; 0 = no call in progress) expresses L3/L4:
-        a steal either starts a call (both deques empty, `lb := 1`) or continues one
-        (`0 < lb < maxSteal`, `lb := lb + 1`); the call ends with the next `switch k` (maintenance
-        loop: line 166-171) or `resumed k` (yield path: line 128).
+        a steal either starts a call (`frm k` empty, `lb := 1`) or continues one
+        (`0 < lb < maxSteal`, `lb := lb + 1`); the call is over with the next `skip k` /
+        `switch k` (maintenance loop: line 166-171) or `resumed k` (yield path: line 128).
     L5  `remote_count > local_count` (wsd.c:135) is NOT a guard of the model: the two counts are
         stale snapshots, so the model allows strictly more steals than the code.  It does not
         prevent steal ping-pong between idle thieves (their local_count is 0), see
         Props/C10.lean `steal_pingpong`.
 
+  Not modelled (does not occur in the yield harness): a wake-up performed by a thread that is in
+  its maintenance loop (event poller, deferred mutex unlock) — `sched` is for running fibers.
+
   Ghost state: `loc f` = the thread that holds `f` (queued or running), `busy` = the fibers that
   are somewhere.  `sched` of a fiber that already is somewhere is rejected.  That the ghosts are
   exact ("a fiber is in at most one place") is the invariant of Proof/SchedN.lean.
+  `hand`, `pend` sequence the events of one thread; `sav f` = `f`'s state word is
+  SAVING_STATE_TO_WAIT.
 
-  Tie to the code: the per-thread behaviour is the one-thread model `Sched`, validated exactly
-  (run order) against the real scheduler; with N threads the run-queue traffic of every runtime
-  log is validated by model `Rt` (bags).  This model has no driver of its own.
+  Which physical deque (`queue_one` / `queue_two`, `@Q<k>a` / `@Q<k>b` in the log) currently
+  plays which role is followed by the driver (`roles`): the roles are exchanged whenever
+  fiber_scheduler_next finds `schedule_from` empty (wsd.c:98-102), i.e. exactly when `skip` /
+  `switch` take their fiber out of `to k`.  While BOTH deques of a thread are empty the code
+  swaps on every fiber_scheduler_next call without leaving a trace in the log; the roles are
+  then unknown and the next push fixes them (the first push of a load_balance call goes to
+  `schedule_from`, a wake-up to `store_to`).
 -/
 import LibfiberVerif.Model.Sched
 
 namespace LibfiberVerif.SchedN
 open LibfiberVerif.Sched (Phase)
 
-/-- which of the victim's two deques a steal takes from -/
+/-- which of a thread's two deques -/
 inductive Which | frm | to
   deriving Repr, DecidableEq
 
 inductive Ev
   | sched (k f : Nat)
   | yield (k : Nat)
+  | pop (k g : Nat)
+  | skip (k g : Nat)
   | switch (k g : Nat)
+  | pushed (k : Nat) (w : Which) (g : Nat)
   | resumed (k : Nat)
-  | finish (k : Nat)
+  | idle (k : Nat)
+  | finish (k : Nat) (sv : Bool)
+  | saved (k f : Nat)
   | steal (k j : Nat) (w : Which) (f : Nat)
   deriving Repr, DecidableEq
 
@@ -84,9 +127,12 @@ structure St where
   to : Nat → List Nat
   cur : Nat → Option Nat
   phase : Nat → Phase
-  lb : Nat → Nat               -- ghost: steals made in the load_balance call in progress
-  loc : Nat → Option Nat       -- ghost: fiber ↦ thread holding it
-  busy : List Nat              -- ghost: fibers that are queued or running somewhere
+  lb : Nat → Nat                       -- ghost: steals made in the load_balance call in progress
+  hand : Nat → Option Nat              -- ghost: popped by fiber_scheduler_next, fate pending
+  pend : Nat → Option (Nat × Which)    -- ghost: push_bottom announced, not yet performed
+  sav : Nat → Bool                     -- fiber ↦ its context is still being saved
+  loc : Nat → Option Nat               -- ghost: fiber ↦ thread holding it
+  busy : List Nat                      -- ghost: fibers that are queued or running somewhere
 
 /-- thread 0 runs the main fiber 0, every other thread idles in its maintenance loop -/
 def init : St :=
@@ -94,6 +140,7 @@ def init : St :=
     cur := fun k => if k = 0 then some 0 else none,
     phase := fun k => if k = 0 then .running else .ending,
     lb := fun _ => 0,
+    hand := fun _ => none, pend := fun _ => none, sav := fun _ => false,
     loc := fun f => if f = 0 then some 0 else none,
     busy := [0] }
 
@@ -118,43 +165,63 @@ def setSrc (s : St) (j : Nat) (w : Which) (l : List Nat) : St :=
   | .frm => { s with frm := upd s.frm j l }
   | .to => { s with to := upd s.to j l }
 
-/-- the `lb` counter after one more steal by a thread with deques `(frm, to)`; `none` = the
-    code cannot steal here (L3, L4) -/
-def lbNext (maxSteal : Nat) (frm to : List Nat) (lb : Nat) : Option Nat :=
-  if frm = [] ∧ to = [] then some 1
+/-- the `lb` counter after one more steal by a thread whose `schedule_from` is `frm`; `none` =
+    the code cannot steal here (L3, L4) -/
+def lbNext (maxSteal : Nat) (frm : List Nat) (lb : Nat) : Option Nat :=
+  if frm = [] then some 1
   else if 0 < lb ∧ lb < maxSteal then some (lb + 1)
   else none
 
 def step (maxSteal : Nat) (s : St) : Ev → Option St
   | .sched k f =>
-    if s.phase k = .running ∧ s.cur k ≠ none ∧ s.loc f = none then
+    if s.phase k = .running ∧ s.cur k ≠ none ∧ s.pend k = none ∧ s.loc f = none then
       some { s with to := upd s.to k (f :: s.to k), loc := upd s.loc f (some k),
                     busy := f :: s.busy }
     else none
   | .yield k =>
-    if s.phase k = .running ∧ s.cur k ≠ none then
+    if s.phase k = .running ∧ s.cur k ≠ none ∧ s.pend k = none then
       some { s with phase := upd s.phase k .yielding }
     else none
-  | .finish k =>
+  | .finish k sv =>
     match s.cur k with
     | none => none
     | some f =>
-      if s.phase k = .running then
+      if s.phase k = .running ∧ s.pend k = none then
         some { s with cur := upd s.cur k none, phase := upd s.phase k .ending,
-                      loc := upd s.loc f none, busy := s.busy.erase f }
+                      sav := upd s.sav f sv, loc := upd s.loc f none, busy := s.busy.erase f }
       else none
+  | .saved _ f =>
+    if s.sav f = true then some { s with sav := upd s.sav f false } else none
   | .resumed k =>
     match s.phase k with
     | .running => if s.cur k ≠ none then some s else none
     | .yielding =>
-      if 0 < s.lb k then       -- back from the occasional load_balance
+      if s.hand k ≠ none ∨ s.pend k ≠ none then none
+      else if 0 < s.lb k then       -- back from the occasional load_balance
         some { s with phase := upd s.phase k .running, lb := upd s.lb k 0 }
-      else if s.frm k = [] ∧ s.to k = [] then
+      else if s.frm k = [] then
         some { s with phase := upd s.phase k .running }
       else none
     | .ending => none
+  | .idle k =>
+    if s.phase k = .ending ∧ s.hand k = none ∧ s.pend k = none ∧ s.frm k = [] then some s else none
+  | .pop k g =>
+    if s.phase k = .running ∨ s.hand k ≠ none ∨ s.pend k ≠ none then none else
+    match next (s.frm k) (s.to k) with
+    | none => none
+    | some (g', _, _) => if g = g' then some { s with hand := upd s.hand k (some g) } else none
+  | .skip k g =>
+    if s.hand k ≠ some g ∨ s.sav g = false then none else
+    match next (s.frm k) (s.to k) with
+    | none => none
+    | some (g', frm', to') =>
+      if g = g' then
+        some { s with frm := upd s.frm k frm', to := upd s.to k (g :: to'),
+                      hand := upd s.hand k none, pend := upd s.pend k (some (g, .to)),
+                      lb := upd s.lb k 0 }
+      else none
   | .switch k g =>
-    if s.phase k = .running then none else
+    if s.phase k = .running ∨ s.hand k ≠ some g ∨ s.sav g = true then none else
     match next (s.frm k) (s.to k) with
     | none => none
     | some (g', frm', to') =>
@@ -162,16 +229,19 @@ def step (maxSteal : Nat) (s : St) : Ev → Option St
         -- `(s.cur k).toList`: the yielder, re-queued by its successor; nothing when dispatching
         some { s with frm := upd s.frm k frm', to := upd s.to k ((s.cur k).toList ++ to'),
                       cur := upd s.cur k (some g), phase := upd s.phase k .running,
-                      lb := upd s.lb k 0 }
+                      lb := upd s.lb k 0, hand := upd s.hand k none,
+                      pend := upd s.pend k ((s.cur k).map (fun c => (c, Which.to))) }
       else none
+  | .pushed k w g =>
+    if s.pend k = some (g, w) then some { s with pend := upd s.pend k none } else none
   | .steal k j w f =>
-    if k = j ∨ s.phase k = .running then none else
-    match popTop (src s j w), lbNext maxSteal (s.frm k) (s.to k) (s.lb k) with
+    if k = j ∨ s.phase k = .running ∨ s.hand k ≠ none ∨ s.pend k ≠ none then none else
+    match popTop (src s j w), lbNext maxSteal (s.frm k) (s.lb k) with
     | some (f', rest), some n =>
       if f = f' then
         let s1 := setSrc s j w rest
         some { s1 with frm := upd s1.frm k (f :: s1.frm k), lb := upd s1.lb k n,
-                       loc := upd s1.loc f (some k) }
+                       pend := upd s1.pend k (some (f, .frm)), loc := upd s1.loc f (some k) }
       else none
     | _, _ => none
 
@@ -179,5 +249,279 @@ def sys (maxSteal : Nat) : Sys St Ev := { init := init, step := step maxSteal }
 
 /-- `max_steal` of fiber_scheduler_load_balance (fiber_scheduler_wsd.c:120) -/
 def codeMaxSteal : Nat := 50
+
+end LibfiberVerif.SchedN
+
+/-! ### log decoding (N kernel threads)
+
+  One log line ↦ at most one `LEv`; `translate` turns it into model events using the model
+  state (which announcement is pending, which fiber was popped, which physical deque plays
+  which role).  Every `rqpush` / `rqpop` (with a fiber) / `rqsteal` (with a fiber) / `switch`
+  line becomes exactly one model event. -/
+namespace LibfiberVerif.SchedN
+open LibfiberVerif.Sched (Phase)
+
+/-- the deque call site of an `rqpush` -/
+inductive Site | schedule | next | balance | other
+  deriving Repr, DecidableEq
+
+inductive LEv
+  | push (k : Nat) (site : Site) (j : Nat) (a : Bool) (f : Nat)   -- rqpush onto @Q<j>a (`a`) / @Q<j>b
+  | popped (k j : Nat) (a : Bool) (r : Option Nat)                  -- rqpop; none = EMPTY / ABORT
+  | stole (k j : Nat) (a : Bool) (r : Option Nat)                   -- rqsteal
+  | ctx (k g : Nat)                     -- switch <g>
+  | seen (k g v : Nat)                  -- fiber_scheduler_next r F<g>.state v
+  | yread (k c v : Nat)                 -- fiber_manager_yield r F<c>.state v, c = the running fiber
+  | selfw (k c v : Nat)                 -- w F<c>.state v by c itself
+  | mw (k f v : Nat)                    -- fiber_manager_do_maintenance w F<f>.state v
+  | resumedNote (k : Nat)               -- harness note `resumed`
+  deriving Repr
+
+def fiberOf (s : String) : Option Nat :=
+  if s.startsWith "@F" then (s.drop 2).toString.toNat? else none
+
+/-- `@Q<k>a` ↦ (k, true), `@Q<k>b` ↦ (k, false) -/
+def queueOf (s : String) : Option (Nat × Bool) :=
+  if s.startsWith "@Q" then
+    let body := (s.drop 2).toString
+    match ((body.dropEnd 1).toString).toNat? with
+    | some k => if body.endsWith "a" then some (k, true) else if body.endsWith "b" then some (k, false) else none
+    | none => none
+  else none
+
+/-- result of pop_bottom / steal: a fiber, or EMPTY (-1) / ABORT (-2) -/
+def resultOf (s : String) : Option (Option Nat) :=
+  if s = "-1" ∨ s = "-2" then some none else (fiberOf s).map some
+
+def stateCell (c : String) : Option Nat :=
+  match c.splitOn "." with
+  | [a, "state"] => fiberOf ("@" ++ a)
+  | _ => none
+
+def siteOf (fn : String) : Site :=
+  if fn = "fiber_scheduler_schedule" then .schedule
+  else if fn = "fiber_scheduler_next" then .next
+  else if fn = "fiber_scheduler_load_balance" then .balance
+  else .other
+
+def ofRaw (r : RawEv) : Option (Option LEv) :=
+  let k := r.tid
+  match r.kind, r.args with
+  | "rqpush", [q, g] => do
+      let q ← queueOf q; let g ← fiberOf g
+      pure (some (.push k (siteOf r.func) q.1 q.2 g))
+  | "rqpop", [q, g] => do let q ← queueOf q; let g ← resultOf g; pure (some (.popped k q.1 q.2 g))
+  | "rqsteal", [q, g] => do let q ← queueOf q; let g ← resultOf g; pure (some (.stole k q.1 q.2 g))
+  | "switch", [g] => g.toNat?.map (fun g => some (.ctx k g))
+  | "r", [c, v] =>
+    match stateCell c, v.toNat? with
+    | some g, some v =>
+      if r.func = "fiber_scheduler_next" then some (some (.seen k g v))
+      else if r.func = "fiber_manager_yield" ∧ g = r.fiber then some (some (.yread k g v))
+      else some none
+    | some _, none => none
+    | none, _ => some none
+  | "w", [c, v] =>
+    match stateCell c, v.toNat? with
+    | some g, some v =>
+      if r.func = "fiber_manager_do_maintenance" then some (some (.mw k g v))
+      else if g = r.fiber then some (some (.selfw k g v))
+      else some none
+    | some _, none => none
+    | none, _ => some none
+  | "note", ["resumed"] => some (some (.resumedNote k))
+  | _, _ => some none      -- other notes, create/destroy, other cells: not this model's business
+
+/-! ### bounded-bypass monitor for N threads
+
+  From `between_consecutive_runs_N` / `holder_bypass_from_pot` (Props/C10.lean): while a fiber
+  `f` is continuously ready, the context switches on the thread holding it number at most
+  `2·n + 49·(times f is stolen) + 2·(fibers created or woken meanwhile)`, `n` = number of
+  fibers when its waiting period began (it was re-queued after a run, woken, or skipped because
+  its context was still being saved).  Only an excess over this bound is flagged. -/
+
+structure Watch where
+  f : Nat
+  base : Nat        -- 2 · (number of fibers) when the waiting period began
+  count : Nat := 0  -- context switches on the thread holding `f` since then
+  steals : Nat := 0
+  scheds : Nat := 0
+
+structure Mon where
+  ws : List Watch := []
+  bad : Option String := none
+
+def Mon.start (m : Mon) (f n : Nat) : Mon :=
+  { m with ws := { f := f, base := 2 * n } :: m.ws.filter (fun w => w.f ≠ f) }
+
+def Watch.limit (w : Watch) : Nat := w.base + (codeMaxSteal - 1) * w.steals + 2 * w.scheds
+
+/-- `s` = the model state BEFORE the event -/
+def monStep (s : St) (m : Mon) : Ev → Mon
+  | .sched _ f =>
+    let m1 : Mon := { m with ws := m.ws.map (fun (w : Watch) => { w with scheds := w.scheds + 1 }) }
+    m1.start f (s.busy.length + 1)
+  | .steal _ _ _ f =>
+    { m with ws := m.ws.map (fun (w : Watch) => if w.f = f then { w with steals := w.steals + 1 } else w) }
+  | .skip _ g => m.start g s.busy.length
+  | .switch k g =>
+    let ws := (m.ws.filter (fun w => w.f ≠ g)).map
+      (fun (w : Watch) => if s.loc w.f = some k then { w with count := w.count + 1 } else w)
+    let m := { m with ws := ws }
+    let m := match ws.find? (fun w => w.count > w.limit) with
+      | some w =>
+        if m.bad.isNone then
+          { m with bad := some s!"starvation: fiber {w.f} bypassed {w.count} times on the threads holding it (stolen {w.steals} times, {w.scheds} fibers created or woken meanwhile, {w.base / 2} fibers when it started waiting)" }
+        else m
+      | none => m
+    match s.cur k with
+    | some c => m.start c s.busy.length
+    | none => m
+  | .finish k _ =>
+    match s.cur k with
+    | some c => { m with ws := m.ws.filter (fun w => w.f ≠ c) }
+    | none => m
+  | _ => m
+
+/-! ### the driver -/
+
+structure DSt where
+  s : St
+  /-- thread ↦ `a`: physical deque `@Q<k>a` (a = true) / `@Q<k>b` currently is `schedule_from`;
+      no entry: both deques are empty, the roles are not known.  (An association list, not a
+      function: the driver's own bookkeeping must be strict data.) -/
+  roles : List (Nat × Bool) := []
+  mon : Mon := {}
+  n : Nat := 0
+
+def roleOf (d : DSt) (j : Nat) (a : Bool) : Option Which :=
+  (d.roles.lookup j).map (fun fa => if fa = a then Which.frm else Which.to)
+
+def setRole (r : List (Nat × Bool)) (k : Nat) (a : Bool) : List (Nat × Bool) :=
+  (k, a) :: r.filter (fun p => p.1 ≠ k)
+
+def swapRole (r : List (Nat × Bool)) (k : Nat) : List (Nat × Bool) :=
+  r.map (fun p => if p.1 = k then (p.1, !p.2) else p)
+
+def forget (s : St) (r : List (Nat × Bool)) (k : Nat) : List (Nat × Bool) :=
+  if s.frm k = [] ∧ s.to k = [] then r.filter (fun p => p.1 ≠ k) else r
+
+/-- `f`, tabulated below `arr.size` (the driver re-tabulates the state's function fields every
+    few hundred events so that a lookup does not walk through one closure per past event) -/
+def tab {α : Type} (arr : Array α) (f : Nat → α) : Nat → α :=
+  fun j => if h : j < arr.size then arr[j] else f j
+
+theorem tab_eq {α : Type} (f : Nat → α) (n : Nat) : tab ((Array.range n).map f) f = f := by
+  funext j
+  simp only [tab]
+  split
+  · simp
+  · rfl
+
+/-- kernel threads are numbered below 16, fibers below 4096 (rt/vrt.c MAXT, MAXFIB) -/
+def compact (s : St) : St :=
+  let t := Array.range 16
+  let f := Array.range 4096
+  { frm := tab (t.map s.frm) s.frm, to := tab (t.map s.to) s.to, cur := tab (t.map s.cur) s.cur,
+    phase := tab (t.map s.phase) s.phase, lb := tab (t.map s.lb) s.lb,
+    hand := tab (t.map s.hand) s.hand, pend := tab (t.map s.pend) s.pend,
+    sav := tab (f.map s.sav) s.sav, loc := tab (f.map s.loc) s.loc, busy := s.busy }
+
+/-- the driver replays through `step` itself: `compact` changes the representation only -/
+theorem compact_eq (s : St) : compact s = s := by
+  simp only [compact, tab_eq]
+
+/-- take one model step; keep `roles` in line with the swaps of fiber_scheduler_next -/
+def emit (M : Nat) (d : DSt) (e : Ev) : Except String DSt :=
+  match step M d.s e with
+  | none => .error s!"model cannot take this step here: {repr e}"
+  | some s' =>
+    let roles := match e with
+      | .skip k _ => forget s' (if d.s.frm k = [] then swapRole d.roles k else d.roles) k
+      | .switch k _ => forget s' (if d.s.frm k = [] then swapRole d.roles k else d.roles) k
+      | .steal _ j _ _ => forget s' d.roles j
+      | _ => d.roles
+    let s' := if d.n % 256 = 255 then compact s' else s'
+    .ok { s := s', roles := roles, mon := monStep d.s d.mon e, n := d.n + 1 }
+
+/-- thread k goes on in the same fiber after a fiber_yield that switched nowhere -/
+def implicitResumed (M : Nat) (d : DSt) (k : Nat) : Except String DSt :=
+  if d.s.phase k = .yielding then emit M d (.resumed k) else .ok d
+
+def checkCur (d : DSt) (k c : Nat) : Except String Unit :=
+  if d.s.cur k = some c then .ok () else .error s!"fiber {c} acts on thread {k}, the model's current fiber there is {repr (d.s.cur k)}"
+
+def translate (M : Nat) (d : DSt) : LEv → Except String DSt
+  | .push k site j a f =>
+    if j ≠ k then .error "push onto another thread's deque" else
+    match d.s.pend k with
+    | some (_, w) =>
+      -- roles unknown (both deques were empty): this push defines them
+      let d := if (d.roles.lookup k).isNone then { d with roles := setRole d.roles k (if w = .frm then a else !a) } else d
+      match roleOf d k a with
+      | some w' => emit M d (.pushed k w' f)
+      | none => .error "unreachable"
+    | none =>
+      if site = .schedule then do
+        let d ← implicitResumed M d k
+        let d := if (d.roles.lookup k).isNone then { d with roles := setRole d.roles k (!a) } else d
+        if roleOf d k a ≠ some .to then .error "fiber_scheduler_schedule pushed onto schedule_from" else
+        emit M d (.sched k f)
+      else .error "push_bottom that no event of the model announces"
+  | .popped k j a r =>
+    if j ≠ k then .error "pop_bottom on another thread's deque" else
+    match r with
+    | none => .error "pop_bottom returned EMPTY/ABORT although its deque was not empty"
+    | some g =>
+      let want := if d.s.frm k = [] then Which.to else Which.frm
+      match roleOf d k a with
+      | some w => if w = want then emit M d (.pop k g) else .error "pop_bottom on the wrong deque"
+      | none => emit M d (.pop k g)      -- both deques empty: the model rejects the pop
+  | .stole k j a r =>
+    match r with
+    | none => .ok d                       -- EMPTY / ABORT: nothing moved
+    | some f =>
+      match roleOf d j a with
+      | some w => emit M d (.steal k j w f)
+      | none => .error "stolen from a thread whose deques are both empty in the model"
+  | .ctx k g =>
+    match d.s.hand k with
+    | some _ => emit M d (.switch k g)
+    | none =>
+      if d.s.loc g ≠ none then .error s!"switch to fiber {g} that fiber_scheduler_next did not pop"
+      else emit M d (.idle k)
+  | .seen k g v => if v = 5 then emit M d (.skip k g) else .ok d
+  | .yread k c v =>
+    if v = 1 then do
+      let d ← implicitResumed M d k
+      checkCur d k c
+      emit M d (.yield k)
+    else .ok d
+  | .selfw k c v =>
+    if v = 3 ∨ v = 4 ∨ v = 5 then do
+      let d ← implicitResumed M d k
+      checkCur d k c
+      emit M d (.finish k (v = 5))
+    else .ok d
+  | .mw k f v => if v = 3 then emit M d (.saved k f) else .ok d
+  | .resumedNote k => implicitResumed M d k
+
+def drive (lines : List String) : IO UInt32 := do
+  let body := lines.filter (fun l => !isInit l)
+  let rec go (d : DSt) (ln : Nat) : List String → DSt × Option (Nat × String × String)
+    | [] => (d, none)
+    | l :: ls =>
+      match parseLine l with
+      | none => (d, some (ln + 1, l, "unparsable line"))
+      | some r =>
+        match ofRaw r with
+        | none => (d, some (ln + 1, l, "event not in the model's vocabulary"))
+        | some none => go d (ln + 1) ls
+        | some (some e) =>
+          match translate codeMaxSteal d e with
+          | .error why => (d, some (ln + 1, l, why))
+          | .ok d' => go d' (ln + 1) ls
+  let (d, v) := go { s := init } 0 body
+  report "SchedN" (d.n, v) d.mon.bad
 
 end LibfiberVerif.SchedN
